@@ -109,4 +109,11 @@ CHECKS.update({
         "technique": "symbolic execution (CrossHair + z3) over symbolic evaluation schedules and values; per-site model oracle",
     },
 })
+CHECKS.update({
+    "C08": {
+        "text": "Two-session histories on materialised text: run 1 with approved set F on 16 templates (lists, 1-tuples, dicts, dataclass calls, hand-written arguments, type change, bounds, membership, sub-snapshots, several sites), run 2 with the same F on the text run 1 wrote, same symbolic observations, the names introduced by the renderer still bound to their symbolic values. The solver confirms on every path that run 2 rewrites nothing for every F, that after F = all categories no category is pending and every comparison holds, and that whatever is still pending was not approved.",
+        "note": "Leaf tokens other than ints are not quantified: 31 non-int leaf values (complex, float, ...) are run three times through the real pipeline as labelled contract validation. One defect found there was repaired (fix: complex parentheses).",
+        "technique": "symbolic execution (CrossHair + z3) of two consecutive real sessions on content-addressed materialised text",
+    },
+})
 NOT_APPLICABLE = {}
